@@ -8,6 +8,7 @@ value; other kinds are refused with ValueError.
 (C) spec/Trace_Native.tla decides the recorded observations.
 """
 from . import absmap as am
+from .common import safe_repr
 from . import core, mutants, valgen
 from .common import try_abs
 
@@ -24,14 +25,14 @@ def observe(v_abs, v_real, nprobes, rng):
     import d42
     from d42.utils import from_native
     ev = {"v": v_abs, "exc": "", "rep": False, "r": [], "acc": False, "gens": [], "probes": [],
-          "vrepr": repr(v_real)[:200]}
+          "vrepr": safe_repr(v_real)[:200]}
     try:
         result = from_native(v_real)
     except BaseException as e:  # noqa
         ev["exc"] = type(e).__name__
         return ev
     ev["rep"], ev["r"] = try_abs(am.a_schema, result)
-    ev["rrepr"] = repr(result)[:300]
+    ev["rrepr"] = safe_repr(result)[:300]
     try:
         ev["acc"] = not d42.validate(result, v_real).has_errors()
     except Exception:
